@@ -896,9 +896,10 @@ pub fn f64_value(op: &str, l: f64, r: f64) -> f64 {
         "mul" => l * r,
         "div" => l / r,
         "pow" => l.powf(r),
-        // unary: `l` is the operand; negation of a variable is documented as `0 - x`
-        // (functions.rs: "d(-x)/dx = -1 (same as d(x - y)/dy for x = 0)")
-        "neg" => 0.0 - l,
+        // unary: `l` is the operand.  Negation: the plain computation `-x`; the sign of a ZERO
+        // result is not compared for `neg` (`0 - x`, as Trace computes it, gives +0.0 for x = 0.0,
+        // `-x` gives -0.0; the property is met by either), see `f64_compare`
+        "neg" => -l,
         "sin" => l.sin(),
         "cos" => l.cos(),
         "exp" => l.exp(),
@@ -934,7 +935,7 @@ pub fn is_unary(op: &str) -> bool {
 /// zero in tape order — (value, ∂/∂x if x is a variable, ∂/∂y if y is a variable).
 pub fn f64_expect_rec(op: &str, pairing: &str, x: f64, y: f64) -> (f64, Option<f64>, Option<f64>) {
     if is_unary(op) {
-        let v = if op == "neg" && pairing == "c" { -x } else { f64_value(op, x, 0.0) };
+        let v = f64_value(op, x, 0.0);
         let (w, _) = f64_local(op, x, 0.0);
         return (v, if pairing == "v" { Some(0.0 + 1.0 * w) } else { None }, None);
     }
@@ -1004,13 +1005,15 @@ pub fn f64_run_rec(op: &str, pairing: &str, x: f64, y: f64, via: &str) -> Result
     })
 }
 
-pub fn f64_compare(got: (f64, Option<f64>, Option<f64>), want: (f64, Option<f64>, Option<f64>)) -> String {
+/// `zero_sign_free`: a zero equals a zero of either sign (used for `neg` only)
+pub fn f64_compare(got: (f64, Option<f64>, Option<f64>), want: (f64, Option<f64>, Option<f64>), zero_sign_free: bool) -> String {
+    let same = |a: f64, b: f64| same_bits(a, b) || (zero_sign_free && a == 0.0 && b == 0.0);
     let opt = |a: Option<f64>, b: Option<f64>| match (a, b) {
         (None, None) => true,
-        (Some(a), Some(b)) => same_bits(a, b),
+        (Some(a), Some(b)) => same(a, b),
         _ => false,
     };
-    if same_bits(got.0, want.0) && opt(got.1, want.1) && opt(got.2, want.2) {
+    if same(got.0, want.0) && opt(got.1, want.1) && opt(got.2, want.2) {
         return "f64=ok".into();
     }
     let sh = |o: Option<f64>| o.map(show_f64).unwrap_or("-".into());
@@ -1032,7 +1035,7 @@ pub fn f64_line_rec(toks: &[&str]) -> String {
     let (x, y) = (parse_bits(toks[5]), parse_bits(toks[6]));
     let via = opt_arg("via", toks).unwrap_or("ref_ref");
     match f64_run_rec(op, pairing, x, y, via) {
-        Ok(got) => f64_compare(got, f64_expect_rec(op, pairing, x, y)),
+        Ok(got) => f64_compare(got, f64_expect_rec(op, pairing, x, y), op == "neg"),
         Err(k) => panic_str(k),
     }
 }
